@@ -154,10 +154,16 @@ func e1Test(t *testing.T, prop string) {
 		pf.Free = true
 	}
 	dir := scratch(t)
-	HangHook = func(step int, op string, dump string) {
+	HangHook = func(step int, op string, dump string, deadlock bool) {
 		// a call that never returns is property C15's business; here the run is inconclusive
-		rec.Note(fmt.Sprintf("engine call did not return within %v at step %d (%s); see the C15 check", hangLimit, step, op))
+		if deadlock {
+			rec.Note(fmt.Sprintf("engine call did not return at step %d (%s) and no goroutine of the engine can run (see the C15 check)", step, op))
+		} else {
+			rec.Note(fmt.Sprintf("step %d (%s) made no progress for 20 minutes although goroutines are runnable", step, op))
+		}
 		_ = os.WriteFile(os.Getenv("VERIF_OUT")+"/hang_"+prop+".txt", []byte(dump), 0o644)
+		_ = os.MkdirAll("/dev/shm/verif-hangs", 0o755)
+		_ = os.WriteFile(fmt.Sprintf("/dev/shm/verif-hangs/hang_%s_%d.txt", prop, os.Getpid()), []byte(dump), 0o644)
 		vlib.FlushAll(false)
 		os.Exit(3)
 	}
